@@ -1750,11 +1750,17 @@ impl<R: Reader> FrameDescriptionEntry<R> {
         if let Some(encoding) = encoding {
             // Ignore indirection.
             let initial_address = parse_encoded_pointer(encoding, parameters, input)?.pointer();
-            let address_range = parse_encoded_value(encoding, parameters, input)?;
+            // The range is a length, not an address, so it must not be relocated.
+            let address_range = if encoding.format() == constants::DW_EH_PE_absptr {
+                input.read_uint(usize::from(parameters.address_size))?
+            } else {
+                parse_encoded_value(encoding, parameters, input)?
+            };
             Ok((initial_address, address_range))
         } else {
             let initial_address = input.read_address(cie.address_size)?;
-            let address_range = input.read_address(cie.address_size)?;
+            // The range is a length, not an address, so it must not be relocated.
+            let address_range = input.read_uint(usize::from(cie.address_size))?;
             Ok((initial_address, address_range))
         }
     }
